@@ -167,6 +167,11 @@ func setupCdp(w *World) {
 	stableIn := mk("USDC", "uusdc", int(cfg.K("stable_in_dec")), r.Bool(), false)
 	p.Gov = mk("HARBOR", "uharbor", 6, false, false)
 
+	// the governance token is a genesis token of the app (as on the live chain; tokenmint and collector set-up rely on it)
+	if err := w.App.AssetKeeper.AddAssetInAppRecords(w.Ctx(), assettypes.AppData{Id: p.AppID, GenesisToken: []assettypes.MintGenesisToken{
+		{AssetId: p.Gov.ID, GenesisSupply: pow10(12), IsGovToken: false, Recipient: w.Actors[0].Bech()}}}); err != nil {
+		panic(fmt.Sprintf("genesis token: %v", err))
+	}
 	// pairs
 	pairOf := map[uint64]uint64{}
 	for _, c := range colls {
